@@ -1672,11 +1672,26 @@ func Reverseaddr(ip net.IP) []byte {
 	return buf
 }
 
+// toLowerASCII returns a copy of b with the letters A-Z lower-cased. DNS names
+// compare case-insensitively in ASCII only; bytes.ToLower is Unicode aware and
+// would also fold UTF-8 letters and replace invalid UTF-8 bytes by U+FFFD,
+// storing the record under a name different from the declared one.
+func toLowerASCII(b []byte) []byte {
+	r := make([]byte, len(b))
+	for i, c := range b {
+		if 'A' <= c && c <= 'Z' {
+			c += 'a' - 'A'
+		}
+		r[i] = c
+	}
+	return r
+}
+
 func makedomainkey(domain []byte, lo Loc, codec *Codec) []byte {
 	k := new(bytes.Buffer) // BUG scale
 	k.Grow(len(domain) + 2)
 
-	domain = bytes.ToLower(domain)
+	domain = toLowerASCII(domain)
 
 	if codec.Features.UseV2Keys {
 		k.WriteString(ResourceRecordsKeyMarker)
@@ -1701,7 +1716,7 @@ func makemapkey(mapID, domain []byte, codec *Codec) []byte {
 		suffix = "*"
 	}
 
-	domain = bytes.ToLower(domain)
+	domain = toLowerASCII(domain)
 
 	if codec.Features.UseV2Keys {
 		putreverseddom(k, domain)
